@@ -73,10 +73,16 @@ def parse(text):
     return ExpressionParser().parse(text)
 
 
+LAST = {}
+
+
 def step(root, rule, index):
-    """One transition on a clone; returns the result root.  Raises what the rule raises."""
+    """One transition on a clone; returns the result root.  Raises what the rule raises.
+    LAST['handed'] keeps the root of the copy that was handed to the rule (for audits of that tree)."""
     node = inorder(root)[index]
     clone = node.clone_from_root()
+    LAST["handed"] = get_root(clone)
+    LAST["handed_sig"] = SG.sig(LAST["handed"])
     change = rule.apply_to(clone)
     res = change.result
     return res, change
